@@ -27,6 +27,16 @@ class _Hang(Exception):
     pass
 
 
+class FactoryObject:
+    """A resource factory that is an object with __call__ (no annotations, no __name__)."""
+
+    def __init__(self, fid: int) -> None:
+        self.fid = fid
+
+    def __call__(self) -> Any:
+        return Gen(self.fid)
+
+
 class Gen:
     def __init__(self, fid: int) -> None:
         self.fid = fid
@@ -130,7 +140,19 @@ class StartupRun:
 
                         add_resource_factory(slow_factory, a["name"], types=[TYPES[t] for t in tys], description=desc)
                     else:
-                        add_resource_factory(lambda fid=a["fid"]: Gen(fid), a["name"], types=[TYPES[t] for t in tys], description=desc)
+                        # "any callable" with the types given explicitly: nothing about it needs to be introspectable
+                        fid = a["fid"]
+                        fac: Any = lambda fid=fid: Gen(fid)       # noqa: E731
+                        if fid % 4 == 1:
+                            import functools
+
+                            fac = functools.partial(Gen, fid)
+                        elif fid % 4 == 2:
+                            fac = FactoryObject(fid)
+                        elif fid % 4 == 3:
+                            def fac(fid: int = fid) -> "OnlyKnownToTypeCheckers":  # type: ignore[name-defined]  # noqa: F821
+                                return Gen(fid)
+                        add_resource_factory(fac, a["name"], types=[TYPES[t] for t in tys], description=desc)
                     for t in tys:
                         self.log("pubFac", i, t, a["name"], a["fid"])
                     self.expected_events.append((tuple(tys), self.final_name(i, which, a["name"]), desc, True))
